@@ -55,6 +55,7 @@ class LenInterp:
         self.param_iv: dict[tuple[str, str], Iv] = {}
         self.appends: list[tuple[FuncInfo, ast.Call, Iv, str]] = []
         self.unsupported: list[str] = []
+        self.unsupported_in: set = set()
 
     def run(self):
         for _ in range(3):
@@ -165,7 +166,25 @@ class LenInterp:
             return env
         if isinstance(st, ast.With):
             return self.block(fi, st.body, env)
+        if isinstance(st, ast.Try):
+            # the body, or a part of it followed by a handler: what the handlers bind is joined in
+            e1 = self.block(fi, st.body, dict(env))
+            outs = [e1] if e1 is not None else []
+            for h in st.handlers:
+                eh = self.block(fi, h.body, dict(env))
+                if eh is not None:
+                    outs.append(eh)
+            if not outs:
+                return None
+            out = dict(outs[0])
+            for o in outs[1:]:
+                for k in set(out) | set(o):
+                    out[k] = iv_join(out.get(k), o.get(k)) if isinstance(out.get(k), Iv) or isinstance(o.get(k), Iv) else out.get(k, o.get(k))
+            if st.finalbody:
+                return self.block(fi, st.finalbody, out)
+            return out
         self.unsupported.append(f"{type(st).__name__} at {fi.loc(st)}")
+        self.unsupported_in.add(fi.fq)
         return env
 
     def _only_shortened(self, loop, name) -> bool:
@@ -497,7 +516,8 @@ def r_len(ctx) -> RuleResult:
                             out_params.add((cs.target.fq, p))
     L = LenInterp(ctx, fis)
     appends = L.run()
-    if L.unsupported:
+    writers_ = {fq for fq, _p in out_params}
+    if L.unsupported and (L.unsupported_in & writers_):
         raise AnalysisError(f"R-LEN: statement kinds not supported by the interval analysis: {L.unsupported[:3]}")
     n = 0
     for fi, call, iv, recv in appends:
